@@ -126,7 +126,17 @@ fn main() {
             let threads: usize = arg(&args, "--threads").and_then(|s| s.parse().ok()).unwrap_or(8);
             let rounds: usize = arg(&args, "--rounds").and_then(|s| s.parse().ok()).unwrap_or(2);
             let seed: u64 = arg(&args, "--seed").and_then(|s| s.parse().ok()).unwrap_or(0);
-            let cases = if mode == "run" { read_cases(&arg(&args, "--cases").expect("--cases")) } else { builtin_cases() };
+            let mut cases = if mode == "run" { read_cases(&arg(&args, "--cases").expect("--cases")) } else { builtin_cases() };
+            // an interpreter (Miri) needs a small workload: keep every k-th case
+            if let Some(k) = arg(&args, "--every").and_then(|s| s.parse::<usize>().ok()) {
+                let k = k.max(1);
+                let off = seed as usize % k;
+                let mut i = 0;
+                cases.retain(|_| {
+                    i += 1;
+                    (i - 1) % k == off
+                });
+            }
             let expect: Option<Vec<String>> = if mode == "run" {
                 let t = std::fs::read_to_string(arg(&args, "--expect").expect("--expect")).expect("expect file");
                 Some(t.lines().map(|l| rawfmt::unesc(l).expect("escape")).collect())
@@ -136,6 +146,8 @@ fn main() {
             let cases = Arc::new(cases);
             let barrier = Arc::new(Barrier::new(threads));
             // 0 disables the spin (Miri: virtual clock, ThreadSanitizer: keep it cheap)
+            // the first F cases of the file are the "first-use corpus": every thread's very first call is one of them
+            let first_n: usize = arg(&args, "--first").and_then(|s| s.parse().ok()).unwrap_or(0);
             let spin_us: u64 = arg(&args, "--spin-us").and_then(|s| s.parse().ok()).unwrap_or(400);
             let t0 = Instant::now();
             let mut hs = Vec::new();
@@ -188,9 +200,16 @@ fn main() {
                             }
                         }
                         if r == 0 {
-                            let want = rawfmt::PROFILES[t % 4];
-                            if let Some(k) = order.iter().position(|i| cases[*i].profile == want) {
-                                order.swap(0, k);
+                            if first_n > 0 {
+                                let f = (t.wrapping_mul(7) + seed as usize) % first_n.min(n);
+                                if let Some(k) = order.iter().position(|i| *i == f) {
+                                    order.swap(0, k);
+                                }
+                            } else {
+                                let want = rawfmt::PROFILES[t % 4];
+                                if let Some(k) = order.iter().position(|i| cases[*i].profile == want) {
+                                    order.swap(0, k);
+                                }
                             }
                         }
                         for &i in &order {
